@@ -134,3 +134,68 @@ func VH_c17_server_rtc() {
 		vReach("withheld")
 	}
 }
+
+// C17 (VRF peer): a peer attached to a VRF holds, as a plain IPv4 route, exactly the VPN routes one
+// of whose targets the VRF imports. A VPN prefix is announced, re-announced with another target set
+// and withdrawn by an iBGP source; the batches queued for the VRF peer are applied to a view.
+func VH_c17_server_vrf() {
+	vpnFams := []bgp.Family{bgp.RF_IPv4_VPN}
+	s := vServer(65000, []bgp.Family{bgp.RF_IPv4_VPN, bgp.RF_IPv4_UC, bgp.RF_RTC_UC})
+	x := bgp.NewTwoOctetAsSpecificExtended(bgp.EC_SUBTYPE_ROUTE_TARGET, 65000, 100, true)
+	y := bgp.NewTwoOctetAsSpecificExtended(bgp.EC_SUBTYPE_ROUTE_TARGET, 65000, 200, true)
+	rdv := bgp.NewRouteDistinguisherTwoOctetAS(65000, 9)
+	pl, err := s.globalRib.AddVrf("v1", 1, rdv, []bgp.ExtendedCommunityInterface{x}, []bgp.ExtendedCommunityInterface{x}, &table.PeerInfo{AS: 65000, LocalID: vAddr4(1, 1, 1, 1)})
+	vAssert(err == nil, "a VRF cannot be added")
+	if len(pl) > 0 {
+		s.propagateUpdate(nil, pl)
+	}
+	src := vEstablished(s, vNeighbor(2, 65000, 65000, vpnFams), vpnFams)
+	cc := vNeighbor(4, 65004, 65000, []bgp.Family{bgp.RF_IPv4_UC})
+	cc.Config.Vrf = "v1"
+	ce := vEstablished(s, cc, []bgp.Family{bgp.RF_IPv4_UC})
+	rd := bgp.NewRouteDistinguisherTwoOctetAS(65000, 1)
+	vpn, _ := bgp.NewLabeledVPNIPAddrPrefix(netip.MustParsePrefix("10.1.0.0/16"), *bgp.NewMPLSLabelStack(100), rd)
+	mk := func(targets int, withdraw bool) *bgp.BGPMessage {
+		if withdraw {
+			a, _ := bgp.NewPathAttributeMpUnreachNLRI(bgp.RF_IPv4_VPN, []bgp.PathNLRI{{NLRI: vpn}})
+			return bgp.NewBGPUpdateMessage(nil, []bgp.PathAttributeInterface{a}, nil)
+		}
+		mp, _ := bgp.NewPathAttributeMpReachNLRI(bgp.RF_IPv4_VPN, []bgp.PathNLRI{{NLRI: vpn}}, vAddr4(10, 0, 0, 2))
+		attrs := []bgp.PathAttributeInterface{bgp.NewPathAttributeOrigin(0), bgp.NewPathAttributeAsPath(nil), bgp.NewPathAttributeLocalPref(100)}
+		switch targets {
+		case 1:
+			attrs = append(attrs, bgp.NewPathAttributeExtendedCommunities([]bgp.ExtendedCommunityInterface{x}))
+		case 2:
+			attrs = append(attrs, bgp.NewPathAttributeExtendedCommunities([]bgp.ExtendedCommunityInterface{y}))
+		case 3:
+			attrs = append(attrs, bgp.NewPathAttributeExtendedCommunities([]bgp.ExtendedCommunityInterface{y, x}))
+		}
+		return bgp.NewBGPUpdateMessage(nil, append(attrs, mp), nil)
+	}
+	have, want := false, false
+	steps := vParam("steps")
+	for i := 0; i < steps; i++ {
+		ev := vChoice("event", 5) // 0 no target, 1 imported target, 2 other target, 3 both, 4 withdraw
+		vRecv(s, src, mk(ev, ev == 4), int64(10+i))
+		want = ev == 1 || ev == 3
+		for ce.fsm.outgoingCh.Len() > 0 {
+			m := (<-ce.fsm.outgoingCh.Out()).(*fsmOutgoingMsg)
+			for _, p := range m.Paths {
+				if p.IsEOR() {
+					continue
+				}
+				vAssert(p.GetFamily() == bgp.RF_IPv4_UC, "a VRF peer is sent a route that is not a plain route of its family")
+				have = !p.IsWithdraw
+			}
+		}
+		for src.fsm.outgoingCh.Len() > 0 {
+			<-src.fsm.outgoingCh.Out()
+		}
+	}
+	vAssert(have == want, "a VRF peer's view of a VPN route differs from 'one of its targets is imported by the VRF' (stale or missing route)")
+	if want {
+		vReach("imported")
+	} else {
+		vReach("not_imported")
+	}
+}
